@@ -1089,7 +1089,7 @@ func limitSites(c *gen.Ctx, l *gen.Lean, sv *lite) error {
 		"udp_session.go | relayNatConnToServerConnGeneric | maxClientPacketSize =",
 		"udp_session_mmsg.go | relayNatConnToServerConnSendmmsg | maxClientPacketSize := zerocopy.MaxPacketSizeForAddr(s.mtu, clientAddrPort.Addr())",
 		"udp_session_mmsg.go | relayNatConnToServerConnSendmmsg | maxClientPacketSize =",
-		"udp_transparent_linux.go | relayNatConnToServerConnSendmmsg | maxClientPacketSize := zerocopy.MaxPacketSizeForAddr(s.mtu, downlink.clientAddrPort.Addr())",
+		"udp_transparent_linux.go | relayNatConnToTransparentConnSendmmsg | maxClientPacketSize := zerocopy.MaxPacketSizeForAddr(s.mtu, downlink.clientAddrPort.Addr())",
 	}
 	want[3] = strings.Replace(want[3], ":=  ", ":= ", 1)
 	sort.Strings(want)
@@ -1147,13 +1147,19 @@ deriving DecidableEq, Repr
 		init := []string{"clientAddrInfop := downlink.clientAddrInfop", "clientAddrPort := clientAddrInfop.addrPort"}
 		if r.mmsg {
 			init = []string{"clientAddrInfop := downlink.clientAddrInfop", "clientAddrPort := downlink.clientAddrInfop.addrPort",
-				"name, namelen := conn.AddrPortToSockaddr(clientAddrPort)"}
+				"conn.SockaddrPutAddrPort(&name, &namelen, clientAddrPort)"}
 		} else {
 			init = append(init, "_, _, err = downlink.serverConn.WriteMsgUDPAddrPort(packetBuf[packetStart:packetStart+packetLength], clientPktinfo, clientAddrPort)")
 		}
 		init = append(init, "packetStart, packetLength, err := downlink.serverConnPacker.PackInPlace(packetBuf, payloadSourceAddrPort, payloadStart, payloadLength, maxClientPacketSize)")
 		if err := e.require(init...); err != nil {
 			return err
+		}
+		if r.mmsg {
+			// once when the loop is set up, once in the refresh block
+			if k := stmtTexts(sv, e.fd)["conn.SockaddrPutAddrPort(&name, &namelen, clientAddrPort)"]; k != 2 {
+				return fmt.Errorf("%s: the destination sockaddr is set %d times (expected: at set-up and in the refresh block)", e.name, k)
+			}
 		}
 		// the refresh block
 		var blocks []*ast.IfStmt
